@@ -268,6 +268,11 @@ FAMILIES = {
 def raiser(x=None, family='plain', y='d_y', child=None, bad=None):
   rec = record('raiser', {'x': x, 'family': family, 'y': y, 'child': child, 'bad': bad})
   if RAISE_ENABLED and family != 'none':
+    # a failing callable may well have modified its (built) arguments before it fails
+    if isinstance(child, list):
+      child.append('touched-before-failing')
+    elif isinstance(child, dict):
+      child['touched-before-failing'] = 1
     exc = FAMILIES[family]()
     LAST_RAISED.append(exc)
     raise exc
@@ -464,3 +469,28 @@ class UCallC:
 
   def __call__(self, x='d_x', *rest):
     return record('UCallC', {'k': self.k, 'x': x}, rest)
+
+
+def make_method_class():
+  """A fresh class (fresh function objects) with an instance method, a classmethod and a
+  staticmethod of different signatures; the same function is reachable bound (obj.scale,
+  Cls.make) and plain (Cls.scale with an explicit self)."""
+
+  class Meth:
+
+    def __init__(self, k=0):
+      self.k = k
+
+    def scale(self, x, offset='d_offset'):
+      return record('Meth.scale', {'self': getattr(self, 'k', self), 'x': x, 'offset': offset})
+
+    def shift(self, *amounts, by='d_by'):
+      return record('Meth.shift', {'self': getattr(self, 'k', self), 'by': by}, amounts)
+
+    @classmethod
+    def make(cls, x, y='d_y'):
+      return record('Meth.make', {'cls': cls.__name__, 'x': x, 'y': y})
+
+  Meth.__module__ = __name__
+  return Meth
+
